@@ -32,6 +32,12 @@ def gen_ops(tier, rng):
     for combo in itertools.permutations(["par1", "jerasure", "cauchy", "default"], 2):
         for (d, p) in [(4, 4), (5, 3), (10, 4)]:
             ops.append((f"gen {'+'.join(combo)} {d} {p} dump", {"cat": "gen-option-order", "p": p}))
+    # WithFastOneParityMatrix next to a matrix family, both orders: XOR parity for exactly one parity shard, the family otherwise
+    for fam in ["cauchy", "par1", "jerasure", "default"]:
+        for combo in [f"{fam}+xor", f"xor+{fam}"]:
+            for (d, p) in [(2, 1), (5, 1), (17, 1), (100, 1), (5, 2), (4, 4)]:
+                ops.append((f"gen {combo} {d} {p}" + (" dump" if d * p <= 64 else ""), {"cat": "gen-fast-one-parity", "p": p}))
+            ops.append((f"enc {combo} - 5 1 1000 {rng.randrange(1, 1<<30)}", {"cat": "enc-fast-one-parity", "p": 1, "size": 1000}))
     for combo in itertools.permutations(["par1", "jerasure", "cauchy"], 3):
         ops.append((f"gen {'+'.join(combo)} 4 4 dump", {"cat": "gen-option-order", "p": 4}))
     for _ in range(60 if tier == "quick" else 2000):
